@@ -102,7 +102,7 @@ func isDigitsValidator(f *ssa.Function) bool {
 	retFalse := false
 	an.Instrs(f, func(in ssa.Instruction) {
 		if r, ok := in.(*ssa.Return); ok {
-			if c, ok := r.Results[0].(*ssa.Const); ok && c.Value != nil && !constant.BoolVal(c.Value) {
+			if c, ok := an.RetOperand(r, 0).(*ssa.Const); ok && c.Value != nil && !constant.BoolVal(c.Value) {
 				retFalse = true
 			}
 		}
